@@ -41,6 +41,9 @@ type Failure struct {
 	Case       *Case      `json:"case"`
 	Mismatches []Mismatch `json:"mismatches,omitempty"`
 	Oracle     string     `json:"oracle,omitempty"` // property violated on the real library (independent of the model)
+	// Confirmed: decision of confirmFailure on the real library alone - "yes: …" the property fails on this
+	// input, "no: …" only the correspondence is broken here, "" the disagreement itself is the violation
+	Confirmed string `json:"confirmed,omitempty"`
 	Answers    []string   `json:"answers,omitempty"`
 }
 
@@ -160,6 +163,7 @@ func runDiff(prop string, seed int64, n int, driverPath, corpusDir, outPath stri
 	cases := loadCorpus(corpusDir)
 	ncorpus := len(cases)
 	orc := newOracle(prop, g)
+	nConfirmed, nUnconfirmed := 0, 0
 	for i := 0; i < n+ncorpus; i++ {
 		var c *Case
 		if i < ncorpus {
@@ -213,13 +217,25 @@ func runDiff(prop string, seed int64, n int, driverPath, corpusDir, outPath stri
 			rep.OracleEvals = orc.evals
 		}
 		if len(relevant) > 0 || oracleMsg != "" {
-			if len(rep.Failures) < maxFail {
-				rep.Failures = append(rep.Failures, Failure{Case: c, Mismatches: relevant, Oracle: oracleMsg, Answers: ans})
+			conf := ""
+			if oracleMsg == "" && nUnconfirmed < 40 {
+				conf = confirmFailure(prop, c, r, relevant)
+			}
+			if strings.HasPrefix(conf, "no:") {
+				// the correspondence is broken on this input but the property holds on it: keep a few of
+				// these and go on searching for an input on which the property itself fails
+				nUnconfirmed++
+				if nUnconfirmed <= maxFail {
+					rep.Failures = append(rep.Failures, Failure{Case: c, Mismatches: relevant, Confirmed: conf, Answers: ans})
+				}
+			} else {
+				nConfirmed++
+				rep.Failures = append(rep.Failures, Failure{Case: c, Mismatches: relevant, Oracle: oracleMsg, Confirmed: conf, Answers: ans})
 			}
 			if r.Timeout {
 				break // a goroutine of the library is still spinning; stop this worker
 			}
-			if len(rep.Failures) >= maxFail {
+			if nConfirmed >= maxFail || nUnconfirmed >= 40 {
 				break
 			}
 		}
